@@ -165,6 +165,89 @@ def run (rules : List Rule) : Cache → List Obj → List Res × Cache
     let (rs, c'') := run rules c' obs
     (r :: rs, c'')
 
+/-! ### query histories with moves
+
+`Documentable.reparent(new_parent, new_name)` (what an `__all__` re-export does) changes the
+qualified name of the moved object and of everything below it; through `System.handleDuplicate` it
+may also rename an object it supersedes.  It does not touch `System._privacyClassCache`: the cache is
+keyed by qualified name, entries made for the old names simply stay under the old names.
+Objects have an identity (index in the world); a move replaces the records of some of them. -/
+
+abbrev World := List Obj
+
+def setObj : World → Nat → Obj → World
+  | [], _, _ => []
+  | _ :: w, 0, o => o :: w
+  | x :: w, i + 1, o => x :: setObj w i o
+
+def applyMove (w : World) : List (Nat × Obj) → World
+  | [] => w
+  | (i, o) :: u => applyMove (setObj w i o) u
+
+def getChain (w : World) (ids : List Nat) : List Obj := ids.filterMap (w[·]?)
+
+inductive Event where
+  /-- `world[i].privacyClass` -/
+  | cls (i : Nat)
+  /-- `isVisible` of the object whose chain object, parent, … has these identities -/
+  | vis (ids : List Nat)
+  /-- `world[i].isPrivate` -/
+  | prv (i : Nat)
+  /-- `reparent`: the new records of the objects whose qualified name (or contents bit) changed -/
+  | move (upd : List (Nat × Obj))
+  deriving Repr
+
+inductive Ans where
+  | lvl (r : Res)
+  | bool (b : BoolRes)
+  | badId
+  deriving DecidableEq, Repr
+
+def runEvents (rules : List Rule) : World → Cache → List Event → List Ans × Cache
+  | _, c, [] => ([], c)
+  | w, c, .cls i :: es =>
+    match w[i]? with
+    | none => let (as, c') := runEvents rules w c es; (.badId :: as, c')
+    | some ob =>
+      let (r, c1) := privacyClass rules c ob
+      let (as, c') := runEvents rules w c1 es
+      (.lvl r :: as, c')
+  | w, c, .prv i :: es =>
+    match w[i]? with
+    | none => let (as, c') := runEvents rules w c es; (.badId :: as, c')
+    | some ob =>
+      let (r, c1) := isPrivate rules c ob
+      let (as, c') := runEvents rules w c1 es
+      (.bool r :: as, c')
+  | w, c, .vis ids :: es =>
+    let (r, c1) := isVisible rules c (getChain w ids)
+    let (as, c') := runEvents rules w c1 es
+    (.bool r :: as, c')
+  | w, c, .move upd :: es => runEvents rules (applyMove w upd) c es
+
+/-- `isVisible` computed from cache-less privacy classes -/
+def visPure (rules : List Rule) : List Obj → BoolRes
+  | [] => .ok true
+  | ob :: parents =>
+    match (privacyClass rules [] ob).1 with
+    | .err e => .err e
+    | .ok l =>
+      if l ≠ .hidden then
+        match parents with
+        | [] => .ok true
+        | p :: ps => if ob.inContents then visPure rules (p :: ps) else .ok false
+      else .ok false
+
+/-- every answer computed afresh (empty cache) for the record the object has at that moment -/
+def pureEvents (rules : List Rule) : World → List Event → List Ans
+  | _, [] => []
+  | w, .cls i :: es =>
+    (match w[i]? with | none => .badId | some ob => .lvl (privacyClass rules [] ob).1) :: pureEvents rules w es
+  | w, .prv i :: es =>
+    (match w[i]? with | none => .badId | some ob => .bool (isPrivate rules [] ob).1) :: pureEvents rules w es
+  | w, .vis ids :: es => .bool (visPure rules (getChain w ids)) :: pureEvents rules w es
+  | w, .move upd :: es => pureEvents rules (applyMove w upd) es
+
 /-! ### `utils.parse_privacy_tuple` (ASCII input) -/
 
 /-- `value.split(':')` -/
